@@ -62,6 +62,7 @@ def main(tier, seed):
                 jobs.append((T, dict(n=1, T=t, iter=it, pattern=pat, cut=True)))
     jobs.append((T, dict(n=2, T=1, iter=1, pattern=("ff", "fi"), cut=True)))
     jobs.append((T, dict(n=1, T=2, iter=1, pattern=("ff",), cut=True, tol="sym")))
+    jobs.append((T, dict(n=1, T=1, iter=0, pattern=("fi",), cut=True, tol="sym")))
     if tier != "quick":
         jobs.append((T, dict(n=2, T=2, iter=1, pattern=("ff", "fi"), cut=True)))
         jobs.append((T, dict(n=2, T=2, iter=0, pattern=("ii", "if"), cut=True)))
@@ -102,7 +103,7 @@ def main(tier, seed):
     chk.sample(dict(inputs="x0, d, l, u, f0, g0 symbolic with l <= x0, x0+d <= u, g0.d < 0; objective/gradient on the ray uninterpreted (fresh value per trial, Ackermann-consistent)",
                     obligations=["evaluations_within_budget", "trial_points_in_box", "step_positive_and_feasible", "returned_step_was_evaluated", "strictly_downhill", "no_exception"]))
     chk.functions = W.functions_encoded(H.FUNCS) + [dict(file=W.sp.optimize._dcsrch.__dict__.get("__file__", "scipy/optimize/_dcsrch.py"), qualname="scipy.optimize._dcsrch.DCSRCH._iterate", sha1_of_file=None)]
-    chk.bounds = dict(T=Ts, n="1 (2 for the step bound)", iteration_index=[0, 1], bounds="finite / infinite / one-sided", tolerances="defaults; symbolic 0<ftol<gtol<1 for T=2")
+    chk.bounds = dict(T=Ts, n="1 (2 for the step bound)", iteration_index=[0, 1], bounds="finite / infinite / one-sided", tolerances="defaults; symbolic 0<=ftol<gtol<1 for T=1,2")
     chk.outside = ["more than %d trials per line search (the property says 1..20)" % max(Ts), "float64 rounding of x0 + alpha*d (mode R)"]
     chk.stubs = ["DCSRCH tail (dcstep + interval update) cut: interval state havocked, next trial any value in [stpmin, stpmax] (sound over-approximation of the trial sequence)" + ("; thorough also runs the uncut real dcstep for T=2" if tier != "quick" else "")]
     chk.assumptions = ["feasible start and x0+d feasible (what the subspace step guarantees, C09)", "descent direction g0.d < 0", "objective values finite"]
